@@ -76,6 +76,14 @@ Proof.
   constructor; auto. eapply lookup_file_nonnil; eauto.
 Qed.
 
+(* a rename refused across file systems (EXDEV) is one of the effects the invariant proof covers *)
+Lemma sys_exec_x_eff : forall x f s, eff f s (fst (sys_exec_x x f s)) (snd (sys_exec_x x f s)).
+Proof.
+  intros x f s. unfold sys_exec_x. pose proof (sys_exec_eff f s) as E.
+  destruct (sys_exec f s) as [f1 r]. simpl in E.
+  destruct x; simpl; auto. destruct s; simpl; auto. destruct r; simpl; auto. constructor.
+Qed.
+
 (* ------------------------------------------------------------------ the setting *)
 
 Section Crash.
